@@ -73,7 +73,7 @@ Record obj := mkobj {
 }.
 Definition inst := list obj.
 Definition no_obj : obj := mkobj 0 [] [] [].
-Definition nobjs (g : inst) : nat := length g.
+Definition nobjs (g : inst) : nat := List.length g.
 Definition getobj (g : inst) (o : nat) : obj := nth o g no_obj.
 Definition keeps (g : inst) (o : nat) : list nat := o_keeps (getobj g o).
 
@@ -94,17 +94,17 @@ Definition types_named (p : string) : list nat :=
   map (fun t => fst (fst (fst t))) (filter (fun t => str_prefix p (snd (fst (fst t)))) own_types).
 
 Definition extra_edges : list (nat * nat) :=
-  map (fun t => (t, ty_os_service)) (types_named "ServiceState<")
-  ++ map (fun t => (t, ty_os_connection)) (types_named "Sender<")
-  ++ map (fun t => (t, ty_os_connection)) (types_named "Receiver<").
+  (map (fun t => (t, ty_os_service)) (types_named "ServiceState<"%string)
+  ++ map (fun t => (t, ty_os_connection)) (types_named "Sender<"%string)
+  ++ map (fun t => (t, ty_os_connection)) (types_named "Receiver<"%string))%list.
 
 Definition is_keep (k : ekind) : bool :=
   match k with Counted | Owned => true | Borrow | StaticRef => false end.
 
 (* the edges along which an object keeps another alive: generated Counted/Owned rows + the two above *)
 Definition keep_edges : list (nat * nat) :=
-  map (fun e => (fst (fst (fst e)), snd (fst (fst e)))) (filter (fun e => is_keep (snd (fst e))) own_edges)
-  ++ extra_edges.
+  (map (fun e => (fst (fst (fst e)), snd (fst (fst e)))) (filter (fun e => is_keep (snd (fst e))) own_edges)
+  ++ extra_edges)%list.
 
 Definition succs (edges : list (nat * nat)) (t : nat) : list nat :=
   map snd (filter (fun e => Nat.eqb (fst e) t) edges).
@@ -116,7 +116,7 @@ Fixpoint ty_rank_f (edges : list (nat * nat)) (fuel : nat) (t : nat) : nat :=
   | S f => fold_right (fun s acc => Nat.max (S (ty_rank_f edges f s)) acc) 0 (succs edges t)
   end.
 
-Definition graph_fuel (edges : list (nat * nat)) : nat := S (length edges).
+Definition graph_fuel (edges : list (nat * nat)) : nat := S (List.length edges).
 Definition ty_rank (edges : list (nat * nat)) (t : nat) : nat := ty_rank_f edges (graph_fuel edges) t.
 
 (* acyclicity as a computation over the finite table: every edge strictly decreases the rank *)
@@ -171,8 +171,8 @@ Definition init (g : inst) (H : list nat) : st :=
 Definition rank_of (edges : list (nat * nat)) (g : inst) (o : nat) : nat := ty_rank edges (o_ty (getobj g o)).
 Definition inst_fuel (edges : list (nat * nat)) (g : inst) : nat :=
   S (list_max (map (rank_of edges g) (seq 0 (nobjs g)))).
-Definition run_all (edges : list (nat * nat)) (g : inst) (order : list nat) : outcome :=
-  run (inst_fuel edges g) g order.
+Definition run_all (edges : list (nat * nat)) (g : inst) (order : list nat) (s : st) : outcome :=
+  run (inst_fuel edges g) g order s.
 
 (* well-formed instance over a type graph, with handle multiset H *)
 Definition wf_instb (edges : list (nat * nat)) (g : inst) (H : list nat) : bool :=
@@ -196,13 +196,14 @@ Definition fin_order_ok (g : inst) (l : list nat) : Prop :=
    calls need.  Types are looked up BY NAME in the generated table so that a renumbering of
    the table does not silently retarget an edge; an unknown name gives type 999 and the
    instance is then not well typed. *)
+Local Open Scope string_scope.
 Definition tid (name : string) : nat :=
   match filter (fun t => String.eqb (snd (fst (fst t))) name) own_types with
   | t :: _ => fst (fst (fst t))
   | [] => 999
   end.
 
-Definition add (g : inst) (o : obj) : inst * nat := (g ++ [o], length g).
+Definition add (g : inst) (o : obj) : inst * nat := ((g ++ [o])%list, List.length g).
 Definition plain (t : string) (ks : list nat) : obj := mkobj (tid t) ks [] [].
 Definition withres (t : string) (ks : list nat) (rs : list rsrc) : obj := mkobj (tid t) ks rs (filter transient rs).
 
@@ -218,7 +219,7 @@ Definition gen (base : string) (p : pattern) : string := base ++ "<" ++ res_name
 (* NodeBuilder::create (node/mod.rs): monitor token, details storage, node directory; opens or
    creates the domain-wide management segment and directories.  Returns (Node, SharedNodeState). *)
 Definition mk_node (g : inst) : inst * (nat * nat) :=
-  let i := length g in
+  let i := List.length g in
   let '(g, sns) := add g (withres "SharedNodeState" []
       [(RGlobalMgmt, 0); (RDomainDir, 0); (RNodeMonitor, i); (RNodeDetails, i); (RNodeDir, i)]) in
   let '(g, sn) := add g (plain "SharedNode" [sns]) in
@@ -227,7 +228,7 @@ Definition mk_node (g : inst) : inst * (nat * nat) :=
 
 (* the OS-level service; created by the first ServiceState, shared by the later ones *)
 Definition mk_os_service (g : inst) : inst * nat :=
-  let i := length g in
+  let i := List.length g in
   add g (mkobj ty_os_service [] [(RDomainDir, 1); (RServiceStatic, i); (RServiceDynamic, i); (RServiceAux, i)]
                                 [(RServiceStatic, i); (RServiceDynamic, i); (RServiceAux, i)]).
 
@@ -237,7 +238,7 @@ Definition mk_os_service (g : inst) : inst * nat :=
 Definition mk_service (p : pattern) (g : inst) (sns os : nat) : inst * (nat * nat) :=
   let '(g, r) := add g (plain (res_name p) []) in
   let '(g, sn) := add g (plain "SharedNode" [sns]) in
-  let i := length g in
+  let i := List.length g in
   let '(g, sst) := add g (withres (gen "ServiceState" p) [os; r; sn] [(RServiceTag, i); (RRegistryEntry, i)]) in
   let '(g, sss) := add g (plain (gen "SharedServiceState" p) [sst]) in
   let '(g, pf) := add g (plain (factory_name p) [sss]) in
@@ -245,33 +246,33 @@ Definition mk_service (p : pattern) (g : inst) (sns os : nat) : inst * (nat * na
 
 (* Sender (port/details/sender.rs): data segment, then (fields) shared_node, service_state *)
 Definition mk_sender (p : pattern) (g : inst) (sns sst : nat) (conns : list nat) : inst * nat :=
-  let i := length g in
+  let i := List.length g in
   let '(g, ds) := add g (withres "DataSegment" [] [(RDataSegment, i)]) in
   let '(g, sn) := add g (plain "SharedNode" [sns]) in
   let '(g, sss) := add g (plain (gen "SharedServiceState" p) [sst]) in
-  add g (plain (gen "Sender" p) ([ds] ++ conns ++ [sn; sss])).
+  add g (plain (gen "Sender" p) ([ds] ++ conns ++ [sn; sss])%list).
 
 (* Receiver (port/details/receiver.rs): service_state, then the connections *)
 Definition mk_receiver (p : pattern) (g : inst) (sst : nat) (conns : list nat) : inst * nat :=
   let '(g, sss) := add g (plain (gen "SharedServiceState" p) [sst]) in
-  add g (plain (gen "Receiver" p) ([sss] ++ conns)).
+  add g (plain (gen "Receiver" p) ([sss] ++ conns)%list).
 
 Definition mk_os_connection (g : inst) : inst * nat :=
-  let i := length g in
+  let i := List.length g in
   add g (mkobj ty_os_connection [] [(RConnection, i)] [(RConnection, i)]).
 
 (* Publisher::new: port tag (held by the shared state), data segment, registry entry (released
    by Drop for Publisher).  Returns (Publisher, PublisherSharedState). *)
 Definition mk_publisher (g : inst) (sns sst : nat) (conns : list nat) : inst * (nat * nat) :=
   let '(g, snd_) := mk_sender PubSub g sns sst conns in
-  let i := length g in
+  let i := List.length g in
   let '(g, pss) := add g (withres "PublisherSharedState" [snd_] [(RPortTag, i)]) in
   let '(g, pb) := add g (withres "Publisher" [pss] [(RRegistryEntry, i)]) in
   (g, (pb, pss)).
 
 Definition mk_subscriber (g : inst) (sst : nat) (conns : list nat) : inst * (nat * nat) :=
   let '(g, rcv) := mk_receiver PubSub g sst conns in
-  let i := length g in
+  let i := List.length g in
   let '(g, sss) := add g (withres "SubscriberSharedState" [rcv] [(RPortTag, i)]) in
   let '(g, sb) := add g (withres "Subscriber" [sss] [(RRegistryEntry, i)]) in
   (g, (sb, sss)).
@@ -290,30 +291,30 @@ Definition mk_sample (g : inst) (sss : nat) : inst * nat := add g (plain "Sample
 Definition mk_notifier (g : inst) (sst : nat) : inst * nat :=
   let '(g, sss) := add g (plain (gen "SharedServiceState" Event) [sst]) in
   let '(g, lc) := add g (plain "ListenerConnections" [sss]) in
-  let i := length g in
+  let i := List.length g in
   add g (withres "Notifier" [lc] [(RPortTag, i); (RRegistryEntry, i)]).
 
 Definition mk_listener (g : inst) (sst : nat) : inst * nat :=
   let '(g, sss) := add g (plain (gen "SharedServiceState" Event) [sst]) in
-  let i := length g in
+  let i := List.length g in
   add g (withres "Listener" [sss] [(RPortTag, i); (RRegistryEntry, i); (REventChannel, i)]).
 
 (* request-response: ClientSharedState {request_sender, response_receiver, port_tag} releases the
    registry entry in its own Drop; SharedServerState {response_sender, request_receiver,
    service_state, port_tag} likewise.  Returns (Client, ClientSharedState). *)
-Definition mk_client (g : inst) (sns sst : nat) (conns : list nat) : inst * (nat * nat) :=
-  let '(g, snd_) := mk_sender ReqRes g sns sst conns in
-  let '(g, rcv) := mk_receiver ReqRes g sst conns in
-  let i := length g in
+Definition mk_client (g : inst) (sns sst creq cresp : nat) : inst * (nat * nat) :=
+  let '(g, snd_) := mk_sender ReqRes g sns sst [creq] in
+  let '(g, rcv) := mk_receiver ReqRes g sst [cresp] in
+  let i := List.length g in
   let '(g, css) := add g (withres "ClientSharedState" [snd_; rcv] [(RPortTag, i); (RRegistryEntry, i)]) in
   let '(g, c) := add g (plain "Client" [css]) in
   (g, (c, css)).
 
-Definition mk_server (g : inst) (sns sst : nat) (conns : list nat) : inst * (nat * nat) :=
-  let '(g, snd_) := mk_sender ReqRes g sns sst conns in
-  let '(g, rcv) := mk_receiver ReqRes g sst conns in
+Definition mk_server (g : inst) (sns sst creq cresp : nat) : inst * (nat * nat) :=
+  let '(g, snd_) := mk_sender ReqRes g sns sst [cresp] in
+  let '(g, rcv) := mk_receiver ReqRes g sst [creq] in
   let '(g, sss) := add g (plain (gen "SharedServiceState" ReqRes) [sst]) in
-  let i := length g in
+  let i := List.length g in
   let '(g, sv) := add g (withres "SharedServerState" [snd_; rcv; sss] [(RPortTag, i); (RRegistryEntry, i)]) in
   let '(g, s) := add g (plain "Server" [sv]) in
   (g, (s, sv)).
@@ -337,14 +338,14 @@ Definition mk_response_mut (g : inst) (sv : nat) : inst * nat :=
    releases the registry entry.  Returns (port, shared state). *)
 Definition mk_writer (g : inst) (sst : nat) : inst * (nat * nat) :=
   let '(g, sss) := add g (plain (gen "SharedServiceState" Blackboard) [sst]) in
-  let i := length g in
+  let i := List.length g in
   let '(g, ws) := add g (withres "WriterSharedState" [sss] [(RRegistryEntry, i)]) in
   let '(g, w) := add g (withres "Writer" [ws] [(RPortTag, i)]) in
   (g, (w, ws)).
 
 Definition mk_reader (g : inst) (sst : nat) : inst * (nat * nat) :=
   let '(g, sss) := add g (plain (gen "SharedServiceState" Blackboard) [sst]) in
-  let i := length g in
+  let i := List.length g in
   let '(g, rs) := add g (withres "ReaderSharedState" [sss] [(RPortTag, i)]) in
   let '(g, r) := add g (withres "Reader" [rs] [(RRegistryEntry, i)]) in
   (g, (r, rs)).
@@ -355,7 +356,73 @@ Definition mk_entry_handle_mut (g : inst) (ws : nat) : inst * nat := add g (plai
 (* ---------- observation: what exists after a state ---------- *)
 (* number of resources of kind k that exist in state s (created by an object not yet finalised) *)
 Definition count_kind (g : inst) (s : st) (k : rkind) : nat :=
-  length (filter (fun r => rkind_eqb (fst r) k)
+  List.length (filter (fun r => rkind_eqb (fst r) k)
                  (flat_map (fun o => o_removes (getobj g o)) (live_objs g s))).
 Definition count_ty_alive (g : inst) (s : st) (t : nat) : nat :=
-  length (filter (fun o => Nat.eqb (o_ty (getobj g o)) t) (live_objs g s)).
+  List.length (filter (fun o => Nat.eqb (o_ty (getobj g o)) t) (live_objs g s)).
+
+(* ---------- the object graphs the harness builds (harness/g3/c17), handles in slot order ----------
+   one or two nodes, each opening the same service once; port A on the first node's service
+   handle, port B on the last node's; then the objects in flight:
+     pub-sub    node.. svc.. publisher subscriber sample_mut(loan) sample(received)
+     event      node.. svc.. notifier listener
+     req-res    node.. svc.. client server pending_response active_request [response, one node only]
+     blackboard node.. svc.. writer reader entry_handle_mut entry_handle *)
+Definition scenario (p : pattern) (two : bool) : inst * list nat :=
+  let g : inst := [] in
+  let '(g, (n0, sns0)) := mk_node g in
+  let '(g, os) := mk_os_service g in
+  let '(g, (pf0, sst0)) := mk_service p g sns0 os in
+  let '(g, nodes, svcs, snsB, sstB) :=
+    (if two then
+       let '(g, (n1, sns1)) := mk_node g in
+       let '(g, (pf1, sst1)) := mk_service p g sns1 os in
+       (g, [n0; n1], [pf0; pf1], sns1, sst1)
+     else (g, [n0], [pf0], sns0, sst0)) in
+  match p with
+  | PubSub =>
+    let '(g, c) := mk_os_connection g in
+    let '(g, (pb, pss)) := mk_publisher g sns0 sst0 [c] in
+    let '(g, (sb, sss)) := mk_subscriber g sstB [c] in
+    let '(g, sm) := mk_sample_mut g pss in
+    let '(g, sa) := mk_sample g sss in
+    (g, (nodes ++ svcs ++ [pb; sb; sm; sa])%list)
+  | Event =>
+    let '(g, nt) := mk_notifier g sst0 in
+    let '(g, ls) := mk_listener g sstB in
+    (g, (nodes ++ svcs ++ [nt; ls])%list)
+  | ReqRes =>
+    let '(g, creq) := mk_os_connection g in
+    let '(g, cresp) := mk_os_connection g in
+    let '(g, (cl, css)) := mk_client g sns0 sst0 creq cresp in
+    let '(g, (sv, svs)) := mk_server g snsB sstB creq cresp in
+    let '(g, pr) := mk_pending_response g css in
+    let '(g, ar) := mk_active_request g svs in
+    if two then (g, (nodes ++ svcs ++ [cl; sv; pr; ar])%list)
+    else let '(g, rs) := mk_response g css in (g, (nodes ++ svcs ++ [cl; sv; pr; ar; rs])%list)
+  | Blackboard =>
+    let '(g, (w, ws)) := mk_writer g sst0 in
+    let '(g, (r, rs)) := mk_reader g sstB in
+    let '(g, em) := mk_entry_handle_mut g ws in
+    let '(g, eh) := mk_entry_handle g rs in
+    (g, (nodes ++ svcs ++ [w; r; em; eh])%list)
+  end.
+
+(* replay of a drop order (slot numbers) on a scenario: the observable resource counts after
+   each drop, for the correspondence with the implementation (ocaml/c17/driver.ml) *)
+Definition obs_kinds : list rkind :=
+  [RNodeMonitor; RNodeDetails; RNodeDir; RServiceTag; RPortTag; RServiceStatic; RServiceDynamic;
+   RServiceAux; RDataSegment; RConnection; REventChannel].
+Definition observe (g : inst) (s : st) : list nat := map (count_kind g s) obs_kinds.
+Definition scenario_ok (p : pattern) (two : bool) : bool :=
+  let '(g, H) := scenario p two in wf_instb keep_edges g H.
+Definition start (p : pattern) (two : bool) : st := let '(g, H) := scenario p two in init g H.
+(* drop the handle in slot k; None = the model itself fails (Underflow / OutOfFuel) *)
+Definition drop_slot (p : pattern) (two : bool) (k : nat) (s : st) : option st :=
+  let '(g, H) := scenario p two in
+  match run_all keep_edges g [nth k H 0] s with Done s' => Some s' | _ => None end.
+Definition observe_scn (p : pattern) (two : bool) (s : st) : list nat :=
+  let '(g, _) := scenario p two in observe g s.
+Definition handle_alive (p : pattern) (two : bool) (k : nat) (s : st) : bool :=
+  let '(_, H) := scenario p two in alive s (nth k H 0).
+Definition nslots (p : pattern) (two : bool) : nat := List.length (snd (scenario p two)).
